@@ -251,3 +251,37 @@ func renameWords(s string, ren map[string]string) string {
 	}
 	return b.String()
 }
+
+
+// declClosure: fd and the functions of the same package it calls, transitively
+// (a helper extracted from a function is part of what the function does).
+func declClosure(p *load.Prog, pkg *packages.Package, fd *ast.FuncDecl, maxDepth int) []*ast.FuncDecl {
+	seen := map[*ast.FuncDecl]bool{fd: true}
+	out := []*ast.FuncDecl{fd}
+	var add func(d *ast.FuncDecl, depth int)
+	add = func(d *ast.FuncDecl, depth int) {
+		if depth >= maxDepth {
+			return
+		}
+		ast.Inspect(d.Body, func(n ast.Node) bool {
+			call, ok := n.(*ast.CallExpr)
+			if !ok {
+				return true
+			}
+			cal := load.Callee(pkg.TypesInfo, call)
+			if cal == nil || cal.Pkg() != pkg.Types {
+				return true
+			}
+			cd := p.Decl(cal)
+			if cd == nil || cd.Body == nil || seen[cd] {
+				return true
+			}
+			seen[cd] = true
+			out = append(out, cd)
+			add(cd, depth+1)
+			return true
+		})
+	}
+	add(fd, 0)
+	return out
+}
